@@ -2,7 +2,7 @@
 """Prints the markdown table 'which checks catch which seeded changes' from seeded/*/ (meta.json, confirm.txt) and the own-mutant log."""
 import json, os, glob, re
 V = os.path.dirname(os.path.dirname(os.path.abspath(__file__)))
-print("| seeded change | property | what it needs | caught by (quick tier) | not caught by |")
+print("| seeded change | property | what it needs (excerpt of the author's notes) | caught by (quick tier) | not caught by |")
 print("|---|---|---|---|---|")
 for d in sorted(glob.glob(os.path.join(V, 'seeded', '*'))):
     name = os.path.basename(d)
@@ -11,9 +11,9 @@ for d in sorted(glob.glob(os.path.join(V, 'seeded', '*'))):
         continue
     m = json.load(open(mp))
     needs = m.get('needs_to_manifest') or m.get('needs') or ''
-    needs = re.sub(r'\s+', ' ', needs)
+    needs = re.sub(r'\s+', ' ', needs).replace('`', '').replace('## ', '')
     needs = needs[:220] + ('…' if len(needs) > 220 else '')
     caught = m.get('caught_by', [])
-    caught = '; '.join(re.sub(r'\s+\d+\s+', ' ', c).replace('  ', ' ') for c in caught) or '—'
+    caught = '; '.join(re.sub(r'\s+[0-9a-f]{8}\]?(?=[ )]|$)', '', re.sub(r'\s+\d+\s+', ' ', c)).replace('  ', ' ') for c in caught) or '—'
     missed = ', '.join(m.get('not_caught_by', [])) or ''
     print(f"| `{name}` | {m.get('property','')} | {needs.replace('|','/')} | {caught.replace('|','/')} | {missed} |")
